@@ -336,6 +336,8 @@ def run_case(spec, check_purity=True, extra_at=None):
     with quantile_spy(qlog), np.errstate(all="ignore"):
         for ci, n in enumerate(spec["chunks"]):
             cand = np.zeros((n, 1))
+            if spec.get("cand_form") == "list":
+                cand = [[0.0] for _ in range(n)]      # array-like candidates: a nested list is as good as an ndarray
             extra(ci, "before")
             uchunk = np.array(utils[off:off + n], dtype=float) if not is_base else None
             before = snap_obj(obj) if check_purity else None
@@ -575,6 +577,8 @@ def gen_params(rng, kind, boundary=False):
 def gen_case(rng, kind, n=None, boundary=False, style=None, with_ovr=False):
     n = n if n is not None else rng.randint(1, 40)
     spec = dict(kind=kind, params=gen_params(rng, kind, boundary), seed=rng.randrange(2**31 - 1), chunks=gen_chunks(rng, n))
+    if rng.random() < 0.2:
+        spec["cand_form"] = "list"
     if kind not in BASELINE_KINDS:
         spec["utils"], spec["style"] = gen_utils(rng, n, style)
     if with_ovr:
